@@ -7,6 +7,7 @@ import NoirVerif.Lemmas.HashJoin
 import NoirVerif.Lemmas.KeyedJoin
 import NoirVerif.Lemmas.JoinShip
 import NoirVerif.Lemmas.SortMergeJoin
+import NoirVerif.Model.IntervalJoin
 namespace Noir.Join
 
 variable {κ α β : Type} [DecidableEq κ]
@@ -143,6 +144,23 @@ example :
       [.left (1, 20), .right (1, 10), .left (2, 21), .leftEnd, .right (3, 11), .right (1, 12), .rightEnd]
       = [(3, none, some (3, 11)), (2, some (2, 21), none), (1, some (1, 20), some (1, 12)),
          (1, some (1, 20), some (1, 10))] := by
+  decide
+
+/-! ### Interval join (executable model and specification only; `intervalJoin_correct` is not proved yet:
+    full statement — for every timestamp-sorted iteration `es ++ [far]` of timestamped `(key, Left l | Right r)`
+    elements (timestamps ≥ 0), the timestamped outputs of `IntervalJoin.step` folded over it are a permutation
+    of `IntervalJoin.spec lower upper L R`, followed by `far`, and the state is initial again) -/
+
+/-- Non-vacuity of the interval-join model against its specification on a boundary instance
+    (`lower = 2`, `upper = 1`: `r.ts ∈ [l.ts - 2, l.ts + 1]`; pairs at both closed ends, one just outside). -/
+example :
+    let es : List (Elem (Nat × (Nat ⊕ Nat))) :=
+      [.ts (0, .inr 100) 3, .ts (0, .inl 1) 5, .ts (0, .inr 101) 6, .ts (0, .inr 102) 7, .ts (1, .inr 103) 7, .far]
+    (es.foldl (fun (acc : IntervalJoin.State Nat Nat Nat × List (Elem (Nat × Nat × Nat))) e =>
+        let r := IntervalJoin.step 2 1 acc.1 e; (r.1, acc.2 ++ r.2)) (IntervalJoin.State.init, [])).2
+      = [.ts (0, 1, 100) 5, .ts (0, 1, 101) 6, .far]
+    ∧ IntervalJoin.spec 2 1 [(5, 0, 1)] [(0, 3, 100), (0, 6, 101), (0, 7, 102), (1, 7, 103)]
+      = [(5, 0, 1, 100), (6, 0, 1, 101)] := by
   decide
 
 /-! ### Shipping -/
